@@ -7,6 +7,7 @@ out-of-bounds access or use of an invalid handle (DESIGN.md section 3, C08):
               (the bound must still be in force at the write: its operands unchanged since the test; stores whose index is
               itself compared with *len are accepted individually)
   REC-EMPTY   (c08_empty.py) the top digit buf[len - 1] of a recoding is read only where the recoded integer is known non-zero
+  SHIFT-WIDEN an int-typed shift (`1 << i`) is never widened into a digit-typed variable
   WRAP        (c08_wrap.py) an unsigned subtraction that bounds a loop or decides a comparison cannot wrap
   WRITE-GUARD (c08_wguard.py) no write through a caller's (buffer, capacity) pair before the capacity has been examined
   CAP         a digit store into a multiple-precision integer is preceded by a capacity request that covers the index
@@ -804,6 +805,47 @@ def rule_div0(ctx, prog, chk):
 
 
 # ---------------------------------------------------------------------- entry points
+# ---------------------------------------------------------------------- SHIFT-WIDEN
+DIGIT_TYPES = re.compile(r"\b(dig_t|dbl_t|uint64_t|sig_t)\b")
+
+
+def rule_shift_widen(ctx, prog, chk):
+    """SHIFT-WIDEN: a shift whose left operand is a plain int constant (`1 << i`) is computed in 32 bits whatever it is
+    assigned to.  Where the result initialises or is assigned to a digit-typed variable (dig_t, dbl_t, uint64_t) and the
+    amount is not a constant below 31, bit positions 31..63 are undefined behaviour / lost: the mask must be built in the
+    digit type ((dig_t)1 << i)"""
+    n = 0
+    for fn in prog.all:
+        for el in fn.all_elements():
+            for sub in ir.walk(fn, el.e):
+                tgt = rhs = None
+                if sub[0] == "d" and sub[2] is not None:
+                    tgt, rhs = sub[1], sub[2]
+                elif sub[0] == "=" and ir.strip_casts(sub[1])[0] == "v":
+                    tgt, rhs = ir.strip_casts(sub[1])[1], sub[2]
+                if tgt is None:
+                    continue
+                r0 = fn.resolve(rhs)
+                while isinstance(r0, list) and r0 and r0[0] == "k":
+                    r0 = fn.resolve(r0[2])
+                if not (isinstance(r0, list) and r0 and r0[0] == "b" and r0[1] == "<<"):
+                    continue
+                l = r0[2]
+                if not (isinstance(l, list) and l[0] == "i" and (len(l) < 3 or re.match(r"^\d+$", str(l[2])))):
+                    continue
+                amt = ir.peel(fn, r0[3])
+                if isinstance(amt, list) and amt[0] == "i" and isinstance(amt[1], int) and amt[1] < 31:
+                    continue
+                n += 1
+                v = fn.vars[tgt]
+                if DIGIT_TYPES.search(v.get("t") or ""):
+                    chk.fail("SHIFT-WIDEN", fn, v["n"], "`%s` is computed in int and only then widened to %s `%s`: for amounts of 31 and more the bit is lost (undefined behaviour), "
+                             "so digits with bits above 31 are handled wrongly" % (fn.fmt(r0)[:30], (v.get("t") or "").replace("const ", ""), v["n"]), line=el.line)
+                else:
+                    chk.ok("SHIFT-WIDEN", fn, v["n"], "int shift kept in a counter / index type", line=el.line)
+    return n
+
+
 # ---------------------------------------------------------------------- REALLOC-KEEP
 def rule_realloc(ctx, prog, chk):
     """the result of realloc is not stored over its own argument: when the reallocation fails the object keeps a null
@@ -843,6 +885,7 @@ def analyse(ctx, prog, chk, dyn=False):
         out["div0"] = rule_div0(ctx, prog, chk)
         from . import c08_wrap, c08_wguard, c08_empty
         out["empty"] = c08_empty.analyse(ctx, prog, chk)
+        out["shift"] = rule_shift_widen(ctx, prog, chk)
         out["wrap"] = c08_wrap.analyse(ctx, prog, chk)
         out["wguard"] = c08_wguard.analyse(ctx, prog, chk)
     return out
@@ -862,6 +905,7 @@ def run(ctx, chk):
     d = analyse(ctx, ctx.program("DYN"), chk, dyn=True)
     chk.floor("TYPESTATE", "handle variables (DYN)", d["typestate"], 1500)
     chk.floor("REALLOC-KEEP", "reallocations (DYN)", d["realloc"], 1)
+    chk.floor("SHIFT-WIDEN", "int shifts assigned to variables (BASE)", c["shift"], 5)
     chk.floor("REC-EMPTY", "accesses to the top digit of a recoding (BASE)", c["empty"], 4)
     chk.floor("WRAP", "unsigned subtractions in conditions (BASE)", c["wrap"], 20)
     chk.floor("WRITE-GUARD", "writes through caller buffers with a capacity (BASE)", c["wguard"], 120)
